@@ -39,11 +39,23 @@ inductive Stmt
   | whiles (c : Expr) (body : List Stmt)
   | forRange (x : String) (n : Expr) (body : List Stmt)
   | defn (f : String) (params : List String) (body : List Stmt)
+  /-- `def f(params…, p=d…): body` – the last `defaults.length` parameters have default values -/
+  | defnD (f : String) (params : List String) (defaults : List Expr) (body : List Stmt)
+  /-- `x = lambda params: e` -/
+  | lam (x : String) (params : List String) (e : Expr)
+  /-- `class name:` whose only member is `__repr__`, returning the text (`some`) or raising ZeroDivisionError (`none`) -/
+  | classdef (name : String) (repr : Option String)
+  /-- `try: body except [cls]: handler` -/
+  | tryExcept (body : List Stmt) (cls : Option String) (handler : List Stmt)
+  /-- `try: body finally: fin` -/
+  | tryFinally (body fin : List Stmt)
 deriving Repr, Inhabited
 
 /-- run-time values; functions are indices into the function table of the namespace -/
 inductive Val
   | none | int (i : Int) | bool (b : Bool) | str (s : String) | fn (id : Nat)
+  | cls (name : String) (repr : Option String)     -- a user class (see `Stmt.classdef`)
+  | obj (repr : Option String)                     -- an instance of such a class
 deriving Repr, BEq, DecidableEq, Inhabited
 
 structure FunDef where
@@ -51,6 +63,7 @@ structure FunDef where
   params : List String
   body : List Stmt
   nest : Nat            -- number of function definitions enclosing the body (compile depth − 1)
+  defaults : List Val := []
 deriving Inhabited
 
 /-- the session namespace (module globals) + the functions defined so far -/
@@ -76,7 +89,7 @@ def setVar (vs : List (String × Val)) (x : String) (v : Val) : List (String × 
 def delVar (vs : List (String × Val)) (x : String) : List (String × Val) := vs.filter (fun p => p.1 != x)
 
 def truthy : Val → Bool
-  | .none => false | .int i => i != 0 | .bool b => b | .str s => s != "" | .fn _ => true
+  | .none => false | .int i => i != 0 | .bool b => b | .str s => s != "" | .fn _ => true | .cls _ _ => true | .obj _ => true
 
 /-- Python floor division / modulo on ℤ -/
 def pyFloorDiv (a b : Int) : Int := Int.fdiv a b
@@ -117,10 +130,18 @@ def reprVal (funs : List FunDef) : Val → String
   | .bool b => if b then "True" else "False"
   | .str s => "'" ++ s.replace "\n" "\\n" ++ "'"
   | .fn id => "<fn " ++ (funs.getD id default).name ++ ">"
+  | .cls name _ => "<class '" ++ name ++ "'>"
+  | .obj (some t) => t
+  | .obj Option.none => "<repr failed>"
+
+/-- the exception `repr(v)` raises, if it does (an instance whose `__repr__` divides by zero) -/
+def reprErr : Val → Option String
+  | .obj Option.none => some "ZeroDivisionError"
+  | _ => Option.none
 
 /-- The hook: given the nesting of the code object the statement was compiled in (0 = the interactive
-top level) and the value, produce the new globals and what is shown. -/
-abbrev ExprHook := (nest : Nat) → (funs : List FunDef) → Val → List (String × Val) → List (String × Val) × List Out
+top level) and the value, produce the new globals, what is shown and the class of the exception raised while showing it (if any). -/
+abbrev ExprHook := (nest : Nat) → (funs : List FunDef) → Val → List (String × Val) → List (String × Val) × List Out × Option String
 
 /-- control outcome of a statement list -/
 inductive Flow | normal | ret (v : Val) | err (cls : String)
@@ -143,6 +164,11 @@ def assigned : Nat → List Stmt → List String
     | .ifs _ t e => assigned fuel t ++ assigned fuel e
     | .whiles _ b => assigned fuel b
     | .defn f _ _ => [f]
+    | .defnD f _ _ _ => [f]
+    | .lam x _ _ => [x]
+    | .classdef n _ => [n]
+    | .tryExcept b _ h => assigned fuel b ++ assigned fuel h
+    | .tryFinally b f => assigned fuel b ++ assigned fuel f
     | _ => []
 
 mutual
@@ -190,9 +216,12 @@ def callF (hk : ExprHook) : Nat → String → List Expr → Option (List (Strin
       | (.error c, st) => (.error c, st)
       | (.ok vs, st) =>
         match fv with
+        | .cls _ r => if vs.isEmpty then (.ok (.obj r), st) else (.error "TypeError", st)
         | .fn id =>
           let fd := st.funs.getD id default
-          if fd.params.length != vs.length then (.error "TypeError", st) else
+          let n := fd.params.length
+          if vs.length > n || vs.length + fd.defaults.length < n then (.error "TypeError", st) else
+          let vs := vs ++ fd.defaults.drop (fd.defaults.length - (n - vs.length))
           match execL hk fuel fd.body (some (fd.params.zip vs)) (fd.nest + 1) st with
           | (.normal, _, st) => (.ok .none, st)
           | (.ret v, _, st) => (.ok v, st)
@@ -244,8 +273,11 @@ def execS (hk : ExprHook) : Nat → Stmt → Option (List (String × Val)) → N
       match evalE hk fuel e loc st with
       | (.error c, st) => (.err c, loc, st)
       | (.ok v, st) =>
-        let (g', o) := hk nest st.funs v st.g
-        (.normal, loc, { st with g := g', outs := o.reverse ++ st.outs })
+        let (g', o, er) := hk nest st.funs v st.g
+        let st := { st with g := g', outs := o.reverse ++ st.outs }
+        match er with
+        | some c => (.err c, loc, st)
+        | Option.none => (.normal, loc, st)
     | .assign x e =>
       match evalE hk fuel e loc st with
       | (.error c, st) => (.err c, loc, st)
@@ -293,6 +325,33 @@ def execS (hk : ExprHook) : Nat → Stmt → Option (List (String × Val)) → N
       let st := { st with funs := st.funs ++ [{ name := f, params := params, body := body, nest := nest + 1 }] }
       let (loc, st) := store f (.fn id) loc st
       (.normal, loc, st)
+    | .defnD f params dflts body =>
+      match evalArgs hk fuel dflts loc st with
+      | (.error c, st) => (.err c, loc, st)
+      | (.ok ds, st) =>
+        let id := st.funs.length
+        let st := { st with funs := st.funs ++ [{ name := f, params := params, body := body, nest := nest + 1, defaults := ds }] }
+        let (loc, st) := store f (.fn id) loc st
+        (.normal, loc, st)
+    | .lam x params e =>
+      let id := st.funs.length
+      let st := { st with funs := st.funs ++ [{ name := "<lambda>", params := params, body := [.ret e], nest := nest + 1 }] }
+      let (loc, st) := store x (.fn id) loc st
+      (.normal, loc, st)
+    | .classdef name r =>
+      let (loc, st) := store name (.cls name r) loc st
+      (.normal, loc, st)
+    | .tryExcept body cls handler =>
+      match execL hk fuel body loc nest st with
+      | (.err c, loc, st) =>
+        if c != "FUEL" && (cls.isNone || cls == some c) then execL hk fuel handler loc nest st else (.err c, loc, st)
+      | r => r
+    | .tryFinally body fin =>
+      match execL hk fuel body loc nest st with
+      | (fl, loc, st) =>
+        match execL hk fuel fin loc nest st with
+        | (.normal, loc, st) => (fl, loc, st)
+        | r => r
 end
 
 /-- Run the body of one interactive statement (`ast.Interactive.Body`) in the session namespace:
